@@ -30,6 +30,14 @@ func genSingleFault(r *rng, index int) *Spec {
 	if (kind == "kill_daemon" || kind == "stop_daemon" || kind == "cut_zk") && target == ha[0] && len(targets) == len(ha) && r.chance(0.7) {
 		sp.Hosts = append(sp.Hosts, HostSpec{Name: "c1", Role: "cascade", StreamFrom: ha[r.intn(len(ha))]})
 	}
+	// a converged cluster still applies with a small delay: what a replica acknowledged is not
+	// necessarily executed yet
+	for i := range sp.Hosts {
+		if sp.Hosts[i].Role == "ha" && i > 0 && sp.Hosts[i].Init == nil && r.chance(0.5) {
+			sp.Hosts[i].Init = &InitState{ApplyDelayMs: int64(r.pickInt(200, 500, 900))}
+			sp.World.ClientWriteMs = int64(r.pickInt(200, 300, 700))
+		}
+	}
 	at := int64(15000) + int64(r.intn(int(c.TickMs+c.HealthMs)))
 	durs := []int64{500, 1500, c.SessionTimeoutMs / 2, c.SessionTimeoutMs + 1000, c.FailoverDelayMs + c.SessionTimeoutMs + 3000, 30000, 60000}
 	d := durs[r.intn(len(durs))]
